@@ -620,6 +620,7 @@ fn c15_exec(op: &MOp, r: &str, r2: &str) {
                 e.exit();
             }
         }
+        ("flow", "loadzero") => { let _ = flow::load_rules(vec![c15_rule_flow(r, "z", 0.0)]); }
         ("flow", _) => fam_ops!(flow, |a: &str, b: &str, k: u32| c15_rule_flow(a, b, k as f64)),
         ("iso", _) => fam_ops!(isolation, |a: &str, b: &str, k: u32| c15_rule_iso(a, b, k)),
         ("hot", _) => fam_ops!(hotspot, |a: &str, b: &str, k: u32| c15_rule_hot(a, b, k as u64)),
@@ -721,6 +722,13 @@ pub fn c15_scenarios(thorough: bool) -> Vec<C15Scn> {
         v.push(C15Scn { name: format!("cb:probe-listener-reads+{}", b),
                         threads: vec![vec![mop("cb", "entry")], vec![mop("cb", b)]], callback: "listener".into(),
                         setup: vec![mop("cb", "entryerr"), mop("clock", "1001")] });
+    }
+    // a probe that another rule rejects (its exit hook rolls the breaker back) against an update that
+    // drops that breaker (whose drop notifies the listeners)
+    for b in ["loadB", "loadres", "clear", "clearres"] {
+        v.push(C15Scn { name: format!("cb:blocked-probe+{}", b),
+                        threads: vec![vec![mop("cb", "entry")], vec![mop("cb", b)]], callback: "".into(),
+                        setup: vec![mop("cb", "entryerr"), mop("clock", "1001"), mop("flow", "loadzero")] });
     }
     if thorough {
         for fam in ["flow", "iso", "hot", "cb"] {
